@@ -1,5 +1,5 @@
 (* C07 - incomparable items/variants never compare equal or ordered; others unaffected. *)
-From DW Require Import Proofs_ord Examples.
+From DW Require Import Proofs_ord Proofs_decl Examples.
 Open Scope nat_scope.
 
 (* If the item, or either operand's variant, is marked incomparable then == is false and
@@ -113,6 +113,23 @@ Check C07_others_unaffected :
 Print Assumptions C07_others_unaffected.
 
 (* Non-vacuity: enum I { A(T), #[incomparable] B, C(T, #[skip] u8) } *)
+(* A variant of an accepted enum is treated as incomparable exactly when one of the options of one of its
+   derive_where attributes is `incomparable` - wherever it stands (first, after skip_inner, in a later attribute). *)
+Theorem C07_marker_as_written :
+  forall (c : cfg) (r : raw_item) (i : input) rvs disc id inc vs,
+    from_input c r = Ok i -> ri_kind r = KEnum rvs -> in_item i = IEnum disc id inc vs ->
+    Forall2 (fun rv d => d_incomparable d = existsb (fun m => meta1_is m "incomparable") (metas_of (rv_attrs rv))) rvs vs.
+Proof.
+  intros c r i rvs disc id inc vs H Hk Hi. pose proof (accepted_variants_declarative c r i rvs disc id inc vs H Hk Hi) as F.
+  clear -F. induction F as [|rv d rvs vs [A _] F IH]; constructor; assumption.
+Qed.
+
+Check C07_marker_as_written :
+  forall (c : cfg) (r : raw_item) (i : input) rvs disc id inc vs,
+    from_input c r = Ok i -> ri_kind r = KEnum rvs -> in_item i = IEnum disc id inc vs ->
+    Forall2 (fun rv d => d_incomparable d = existsb (fun m => meta1_is m "incomparable") (metas_of (rv_attrs rv))) rvs vs.
+Print Assumptions C07_marker_as_written.
+
 Example C07_nonvacuous :
   exists i, from_input cfg_default ex_inc = Ok i /\
     incomparable_value (in_item i) (mkValue 1 ([] : list nat)) = true /\
